@@ -26,7 +26,7 @@ EXPLANATION = (
 
 # NumPy computer attribute -> meaning (constructor parameter of the torch module)
 NP_ATTR_MEANING = {
-    "frame_length": "frame_length", "frame_shift": "frame_shift", "_frame_style": "frame_style", "_window": "window",
+    "frame_length": "frame_length", "frame_shift": "frame_shift", "_frame_length": "frame_length", "_frame_shift": "frame_shift", "_frame_style": "frame_style", "_window": "window",
     "_dft_size": "dft_size", "_log": "use_log", "_power": "use_power", "_include_energy": "include_energy",
     "_kaldi_shift": "kaldi_shift", "_real": "is_real",
 }
@@ -114,13 +114,49 @@ def nameflow(ctx, R="R-C14-nameflow"):
     fwd = prog.own_method(cls, "forward")
     fn = prog.func("torch.pytorch_stft_frame_computer")
     comp = fac.params[1]
-    # hop 1: local -> computer attribute
+    # hop 1: local -> computer attribute (read through properties that return a private attribute)
+    np_cls = prog.cls("compute.ShortTimeFourierTransformFrameComputer")
+
+    def underlying(attr):
+        m = prog.find_method(np_cls, attr)
+        if m is not None and m.is_property and not m.is_abstract:
+            r = astq.returns_of(m)
+            if len(r) == 1 and astq.is_self_attr(r[0].value, m.params[0]):
+                return r[0].value.attr
+        return attr
+
+    def chains(node):
+        """dotted attribute chains rooted at the computer parameter, outermost only"""
+        out = []
+        inner = set()
+        for x in ast.walk(node):
+            if isinstance(x, ast.Attribute) and id(x) not in inner:
+                parts, cur = [], x
+                while isinstance(cur, ast.Attribute):
+                    parts.append(cur.attr)
+                    inner.add(id(cur.value))
+                    cur = cur.value
+                if astq.is_name(cur, comp):
+                    parts = list(reversed(parts))
+                    parts[0] = underlying(parts[0])
+                    out.append(tuple(parts))
+        return out
+
+    def meaning(ch):
+        if len(ch) == 1:
+            return NP_ATTR_MEANING.get(ch[0])
+        if ch in (("_bank", "is_real"),):
+            return "is_real"  # what the computer itself stores in _real
+        if ch[0] in ("_filt_start_idxs", "_truncated_filts"):
+            return None
+        return "<%s>" % ".".join(ch)
+
     local_attr = {}
     for n in fac.body_nodes():
         if isinstance(n, ast.Assign) and len(n.targets) == 1 and isinstance(n.targets[0], ast.Name):
-            attrs = [x.attr for x in ast.walk(n.value) if isinstance(x, ast.Attribute) and astq.is_name(x.value, comp)]
-            if attrs:
-                local_attr[n.targets[0].id] = attrs
+            chs = chains(n.value)
+            if chs:
+                local_attr[n.targets[0].id] = (chs, n.value)
     rets = astq.returns_of(fac)
     ctx.need(len(rets) == 1 and isinstance(rets[0].value, ast.Call) and astq.is_name(rets[0].value.func, fac.params[0]), R,
              "from_stft_frame_computer does not end in `return cls(...)`")
@@ -134,26 +170,32 @@ def nameflow(ctx, R="R-C14-nameflow"):
             bound[k.arg] = k.value
     n_checked = 0
     for p, a in bound.items():
-        attrs = []
+        chs, exprs = [], [a]
         for x in ast.walk(a):
             if isinstance(x, ast.Name) and x.id in local_attr:
-                attrs += local_attr[x.id]
-            if isinstance(x, ast.Attribute) and astq.is_name(x.value, comp):
-                attrs.append(x.attr)
-        meanings = {NP_ATTR_MEANING[at] for at in attrs if at in NP_ATTR_MEANING}
+                chs += local_attr[x.id][0]
+                exprs.append(local_attr[x.id][1])
+        chs += chains(a)
+        attrs = [".".join(c) for c in chs]
+        meanings = {meaning(c) for c in chs} - {None}
         if p == "offsets_and_truncated_filters":
-            ok = set(attrs) >= {"_filt_start_idxs", "_truncated_filts"}
+            ok = {c[0] for c in chs} >= {"_filt_start_idxs", "_truncated_filts"}
             ctx.check(ok, R, fac, rets[0], "filters and start bins come from the computer's truncated responses",
                       "offsets_and_truncated_filters is built from %s" % attrs)
             n_checked += 1
             continue
-        if not meanings:
+        if p not in NP_ATTR_MEANING.values():
             continue
         n_checked += 1
         ctx.check(meanings == {p}, R, fac, rets[0], "constructor slot `%s` receives the computer's %s" % (p, p),
-                  "constructor slot `%s` of the PyTorch module receives the NumPy computer's %s (%s): crossed parameters"
-                  % (p, "/".join(sorted(meanings)), ", ".join(attrs)))
-    for need in NP_ATTR_MEANING.values():
+                  "constructor slot `%s` of the PyTorch module receives %s of the NumPy computer, not the value the computer itself uses for %s"
+                  % (p, ", ".join(attrs) or "nothing", p))
+        # passed through unchanged (flags are not negated / recombined on the way)
+        if meanings == {p} and p not in ("window", "frame_style"):
+            for e in exprs:
+                plain = isinstance(e, (ast.Name, ast.Attribute))
+                ctx.check(plain, R, fac, rets[0], "`%s` is passed through unchanged" % p, "`%s` is computed as %s on the way to the module" % (p, astq.text(e)[:60]))
+    for need in sorted(set(NP_ATTR_MEANING.values())):
         ctx.check(need in bound, R, fac, rets[0], "the computer's %s is handed to the module" % need,
                   "from_stft_frame_computer does not pass %s to the module; the default would be used" % need)
     # the (offset, filter) pairs keep their order: zip(starts, filters) unpacked as (o, x)
